@@ -24,39 +24,37 @@ def _pt(p, D):
     return tuple(p)
 
 
-def run(verdict, tier):
+_G = {}
+
+
+class _Col:
+    def __init__(self):
+        self.v = []
+        self.coverage = {}
+
+    def violation(self, clause, site=None, where=None, detail=None):
+        if len(self.v) < 40:
+            self.v.append((clause, site, where, detail))
+
+
+def _chunk(jobs):
     from pybads.function_logger import FunctionLogger, contraints_check
-    combos = [(1, 3), (2, 2)]
-    if tier == "thorough":
-        combos = [(1, 4), (2, 3)]
-    total_states = 0
+    verdict = _Col()
+    tier = _G.get("tier", "quick")
+    scalings = [(1.0, 1.0), (2.0 ** -10, 2.0 ** -20)]
     total_cases = 0
     n_eq_ideal = 0
     samples = []
-    scalings = [(1.0, 1.0), (2.0 ** -10, 2.0 ** -20)]   # (lattice spacing, tol_mesh)
-    for (D, mc) in combos:
-        cfg = ("SPECIFICATION Spec\nCONSTANTS\n  Dim = %d\n  MaxCand = %d\n"
-               "INVARIANT IdealSatisfies\nINVARIANT IdealMaximal\n" % (D, mc))
-        r = run_tlc("CandFilter", cfg=cfg, timeout=1200, dump="out", keep=True)
-        if not r.ok:
-            if r.violated:
-                verdict.violation("C17.design_model:" + ",".join(r.violated), site="CandFilter.tla",
-                                  where=f"D={D}")
-                shutil.rmtree(r.workdir, ignore_errors=True)
-                continue
-            raise MachineryError("CandFilter TLC failed: %s\n%s" % (r.summary(), r.output[-1500:]))
-        states = parse_dump(os.path.join(r.workdir, "out.dump"))
-        shutil.rmtree(r.workdir, ignore_errors=True)
-        total_states += r.distinct_states
+    for (D, st, si) in jobs:
         lb = np.zeros((1, D))
         ub = np.ones((1, D))
-        for st in states:
+        if True:
             cands = [_pt(p, D) for p in st["cands"]]
             ev = sorted(_pt(p, D) for p in st["evaluated"])
             inf = set(_pt(p, D) for p in st["infeasible"])
             proj = bool(st["proj"])
             ideal = set(_pt(p, D) for p in st["ideal"])
-            for (h, tol) in (scalings if tier == "thorough" or total_cases % 7 == 0 else scalings[:1]):
+            for (h, tol) in (scalings if tier == "thorough" or si % 7 == 0 else scalings[:1]):
                 total_cases += 1
                 fl = FunctionLogger(lambda x: 0.0, D, False, 0, cache_size=8)
                 fl.variable_transformer = _IdT()
@@ -106,6 +104,53 @@ def run(verdict, tier):
                 if len(samples) < 3 and len(cands) >= 2 and ev and inf:
                     samples.append({"cands": cands, "evaluated": ev, "infeasible": sorted(inf), "proj": proj,
                                     "ideal": sorted(ideal), "real_output": rows})
+    return verdict.v, total_cases, n_eq_ideal, samples, verdict.coverage.get("candfilter_empty_input_raises")
+
+
+def run(verdict, tier):
+    from pybads.function_logger import FunctionLogger, contraints_check
+    combos = [(1, 3), (2, 2)]
+    if tier == "thorough":
+        combos = [(1, 4), (2, 2)]
+    total_states = 0
+    total_cases = 0
+    n_eq_ideal = 0
+    samples = []
+    scalings = [(1.0, 1.0), (2.0 ** -10, 2.0 ** -20)]   # (lattice spacing, tol_mesh)
+    for (D, mc) in combos:
+        cfg = ("SPECIFICATION Spec\nCONSTANTS\n  Dim = %d\n  MaxCand = %d\n"
+               "INVARIANT IdealSatisfies\nINVARIANT IdealMaximal\n" % (D, mc))
+        r = run_tlc("CandFilter", cfg=cfg, timeout=1200, dump="out", keep=True)
+        if not r.ok:
+            if r.violated:
+                verdict.violation("C17.design_model:" + ",".join(r.violated), site="CandFilter.tla",
+                                  where=f"D={D}")
+                shutil.rmtree(r.workdir, ignore_errors=True)
+                continue
+            raise MachineryError("CandFilter TLC failed: %s\n%s" % (r.summary(), r.output[-1500:]))
+        states = parse_dump(os.path.join(r.workdir, "out.dump"))
+        shutil.rmtree(r.workdir, ignore_errors=True)
+        total_states += r.distinct_states
+        lb = np.zeros((1, D))
+        ub = np.ones((1, D))
+        jobs = [(D, st, si) for si, st in enumerate(states)]
+        _G["tier"] = tier
+        import multiprocessing as mp
+        ctx = mp.get_context("fork")
+        n = os.cpu_count() or 4
+        size = max(1, len(jobs) // (n * 8))
+        chunks = [jobs[i:i + size] for i in range(0, len(jobs), size)]
+        with ctx.Pool(n) as pool:
+            for vs, nc, neq, smp, emp in pool.imap_unordered(_chunk, chunks):
+                total_cases += nc
+                n_eq_ideal += neq
+                for (clause, site, where, detail) in vs:
+                    verdict.violation(clause, site=site, where=where, detail=detail)
+                for x in smp:
+                    if len(samples) < 3:
+                        samples.append(x)
+                if emp:
+                    verdict.coverage["candfilter_empty_input_raises"] = emp
     verdict.coverage.update({
         "candfilter_states": total_states, "candfilter_cases_replayed": total_cases,
         "candfilter_outputs_equal_to_ideal": n_eq_ideal, "candfilter_samples": samples,
